@@ -805,6 +805,16 @@ int main(int argc, char **argv)
         return 0;
     }
 
+    if (cmd == "sweepsize") {
+        const Engine *eng = findEngine(target);
+        if (eng == nullptr || !eng->sweepSize) {
+            fprintf(stderr, "engine %s has no enumerated sweep\n", target.c_str());
+            return 2;
+        }
+        printf("%llu\n", (unsigned long long)eng->sweepSize(opts));
+        return 0;
+    }
+
     if (cmd == "plan") {
         const Engine *eng = findEngine(target);
         if (eng == nullptr) {
